@@ -149,7 +149,6 @@ struct Waits<'a> {
     applied: Vec<u8>,
     hung_busy: bool,
     drop_spurious: bool,
-    clamp_len: Option<usize>,
 }
 
 impl Waits<'_> {
@@ -158,12 +157,6 @@ impl Waits<'_> {
         match &mut w.chip {
             Chip::C126(c) => c.apply_outcome(&mut w.env, out, &p, cad),
             Chip::C127(c) => c.apply_outcome(&mut w.env, out, &p, cad),
-        }
-    }
-    fn clamp(&self, len: u8) -> u8 {
-        match self.clamp_len {
-            Some(m) => (len as usize).min(m) as u8,
-            None => len,
         }
     }
     fn on_pend(&mut self, w: &mut World, p: Pend) -> bool {
@@ -175,8 +168,7 @@ impl Waits<'_> {
             let Some(irq) = self.irqs.get(self.next).copied() else {
                 if !self.implicit_done_used {
                     self.implicit_done_used = true;
-                    let l = self.clamp(12);
-                    if Self::apply(w, ChipOutcome::Done, l, false) {
+                    if Self::apply(w, ChipOutcome::Done, 12, false) {
                         self.applied.push(1);
                         w.env.tr(|| "chip: operation completes (implicit Done)".into());
                         return true;
@@ -188,8 +180,8 @@ impl Waits<'_> {
             };
             self.next += 1;
             let applied = match irq {
-                Irq::Done { len, cad } => Self::apply(w, ChipOutcome::Done, self.clamp(len), cad),
-                Irq::CrcError { len } => Self::apply(w, ChipOutcome::CrcError, self.clamp(len), false),
+                Irq::Done { len, cad } => Self::apply(w, ChipOutcome::Done, len, cad),
+                Irq::CrcError { len } => Self::apply(w, ChipOutcome::CrcError, len, false),
                 Irq::Timeout => Self::apply(w, ChipOutcome::Timeout, 0, false),
                 Irq::HeaderError => Self::apply(w, ChipOutcome::HeaderError, 0, false),
                 Irq::Preamble => Self::apply(w, ChipOutcome::Preamble, 0, false),
@@ -483,7 +475,6 @@ impl<'a, RK: RadioKind> Exec<'a, RK> {
                 }
             }
         }
-        let clamp_len = None;
         if has(case, TAG_RX_READ_ERROR) {
             // a buffer that holds any packet: get_rx_payload cannot fail with PayloadSizeMismatch (C18 covers small buffers)
             if let Op::CompleteRx { buf } | Op::Rx { buf } | Op::LwRxSingle { buf } | Op::LwRxContinuous { buf } = &mut step.op {
@@ -502,7 +493,7 @@ impl<'a, RK: RadioKind> Exec<'a, RK> {
             let t = format!("step {idx}: {:?} gap={}us fault={:?} irqs={:?}  [driver mode {:?}, chip mode class {}]", step.op, step.gap_us, step.fault, step.irqs, hm0, chip_before);
             w.env.tr(|| t);
         }
-        let mut waits = Waits { irqs: &step.irqs, next: 0, implicit_done_used: false, cancelled: None, applied: vec![], hung_busy: false, drop_spurious, clamp_len };
+        let mut waits = Waits { irqs: &step.irqs, next: 0, implicit_done_used: false, cancelled: None, applied: vec![], hung_busy: false, drop_spurious };
         let res = self.call(&step, &mut waits);
         let log = self.world.borrow().call;
         if let Some(chip_completes) = waits.cancelled {
@@ -674,7 +665,7 @@ impl<'a, RK: RadioKind> Exec<'a, RK> {
         for attempt in 0..3 {
             if attempt == 2 {
                 self.world.borrow_mut().env.tr(|| "recovery: re-initialising".into());
-                let mut w0 = Waits { irqs: &[], next: 0, implicit_done_used: false, cancelled: None, applied: vec![], hung_busy: false, drop_spurious: false, clamp_len: None };
+                let mut w0 = Waits { irqs: &[], next: 0, implicit_done_used: false, cancelled: None, applied: vec![], hung_busy: false, drop_spurious: false };
                 self.world.borrow_mut().begin_call("init", None);
                 let r = self.call(&Step::of(Op::Init), &mut w0);
                 if r != Res::Ok {
@@ -685,7 +676,7 @@ impl<'a, RK: RadioKind> Exec<'a, RK> {
             let n_before = self.tx_log_len();
             let mut ok = true;
             for s in &probe {
-                let mut w0 = Waits { irqs: &[], next: 0, implicit_done_used: false, cancelled: None, applied: vec![], hung_busy: false, drop_spurious: false, clamp_len: None };
+                let mut w0 = Waits { irqs: &[], next: 0, implicit_done_used: false, cancelled: None, applied: vec![], hung_busy: false, drop_spurious: false };
                 {
                     let mut w = self.world.borrow_mut();
                     w.begin_call(s.op.name(), None);
